@@ -36,8 +36,13 @@ def gen(rng, tier):
     faults = []
     r = rng.random()
     if r < 0.3:
-        faults.append(dict(kind="kill", target=["w", rng.randrange(old)], sig=rng.choice([9, 11]),
-                           at=["op", rng.randint(8, 140)]))
+        if rng.random() < 0.3:
+            # a worker added by the resize dies while it starts up
+            faults.append(dict(kind="kill", target=["w", old + rng.randrange(3)], sig=rng.choice([9, 11]),
+                               at=["op", rng.randint(1, 12)]))
+        else:
+            faults.append(dict(kind="kill", target=["w", rng.randrange(old)], sig=rng.choice([9, 11]),
+                               at=["op", rng.randint(8, 140)]))
     kn = gen_knobs(rng, tier)
     if timeout is not None and timeout < 1 and rng.random() < 0.6:
         kn["J"] = rng.choice([0.05, 1.0])
